@@ -2,7 +2,7 @@
 from fractions import Fraction
 
 from harness import coqio as cq
-from harness.common import CONFIGS, F, enc, fl, score_list, sizes, nextafter
+from harness.common import CONFIGS, F, enc, fl, score_list, sizes, nextafter, pick_dtype
 
 ID = "C01"
 PROPS_FILE = "Props/C01.v"
@@ -53,7 +53,9 @@ def gen_cases(rng, tier):
                 thr.append(enc(Fraction(rng.randint(-28, 28), 8)))
         cases.append({"pos": [enc(x) for x in pos], "neg": [enc(x) for x in neg],
                       "ep": rng.choice([0, 0, 1, 3, 17]), "en": rng.choice([0, 0, 2, 5]),
-                      "sc": sc, "ec": ec, "thr": thr, "is_sorted": k % 6 == 0})
+                      "sc": sc, "ec": ec, "thr": thr, "is_sorted": k % 6 == 0,
+                      "dtype": pick_dtype(rng, pos + neg) if pos + neg else "float64",
+                      "history": rng.choice([None, None, None, "proportion", "replacement", "single_pass", "swap", "thresholds"])})
     return cases
 
 
@@ -62,10 +64,24 @@ def run_impl(case):
     from score_analysis import Scores
     from score_analysis.scores import pointwise_cm
 
-    pos = np.array([fl(x) for x in case["pos"]], dtype=float)
-    neg = np.array([fl(x) for x in case["neg"]], dtype=float)
+    dt = np.dtype(case.get("dtype", "float64"))     # values are exactly representable in the chosen dtype
+    pos = np.array([fl(x) for x in case["pos"]], dtype=float).astype(dt)
+    neg = np.array([fl(x) for x in case["neg"]], dtype=float).astype(dt)
     thr = np.array([fl(t) for t in case["thr"]], dtype=float)
     s = Scores(pos, neg, nb_easy_pos=case["ep"], nb_easy_neg=case["en"], score_class=case["sc"], equal_class=case["ec"])
+    # the property holds for the object whatever was called on it before: run a short history first
+    h = case.get("history")
+    if h and len(pos) and len(neg):
+        from score_analysis import BootstrapConfig
+        np.random.seed(7)
+        if h in ("proportion", "replacement", "single_pass"):
+            for _ in range(2):
+                s.bootstrap_sample(BootstrapConfig(sampling_method=h, ratio=0.5 if h == "proportion" else None))
+        elif h == "swap":
+            s.swap().cm(thr)
+        else:
+            for name in ("tpr", "fnr", "tnr", "fpr", "topr", "tonr"):
+                getattr(s, "threshold_at_" + name)(np.array([0.0, 0.3, 1.0]))
     cm = s.cm(thr)
     raw = None
     mats = [[int(v) for v in m.reshape(-1)] for m in cm.matrix]
